@@ -154,7 +154,7 @@ pub fn read_fd_all(fd: i32) -> Vec<u8> {
 pub const ISO_STEP_CAP: u64 = 15_000;
 
 /// Wall-clock backstop for one isolated evaluation (a real clock, used only to turn a hang into an answer).
-const ISO_TIMEOUT_MS: i32 = 20_000;
+const ISO_TIMEOUT_MS: i32 = 8_000;
 
 /// Make getrandom() in this process a seeded stream (only if the interposer is loaded).
 pub fn seed_os_randomness(seed: u64) {
